@@ -161,6 +161,7 @@ class Site:
     func: Func
     shadow: frozenset[str] = frozenset()  # comprehension/lambda-bound names visible at the site
     flow: "Flow | None" = field(default=None, repr=False, compare=False)  # the analysis this site belongs to
+    callers: tuple[ast.stmt, ...] = ()  # statements (outermost first) whose helper calls were walked to reach this site; () = the function's own code
 
     @property
     def line(self) -> int:
@@ -372,6 +373,7 @@ class Flow:
         self.opaque_new: list[str] = []
         self.inline_known = False  # set by a rule that wants reference-tree helpers inlined as well
         self._inline_stack: list[str] = []
+        self._caller_stmts: list[ast.stmt] = []
         self._ret_stack: list[list[tuple[State, ast.expr | None]]] = []
         self._site_func: Func | None = None
         self._inline_seq = 0
@@ -831,7 +833,8 @@ class Flow:
     # ------------------------------------------------------------------ expressions
     def _record(self, node: ast.AST, st: State, extra: tuple[Fact, ...]) -> None:
         shadow = frozenset(set().union(*self._shadow)) if self._shadow else frozenset()
-        self.sites.append(Site(node, self._stmt, st.copy(), extra, tuple(self._loops), self._site_func or self.func, shadow, self))
+        self.sites.append(Site(node, self._stmt, st.copy(), extra, tuple(self._loops), self._site_func or self.func, shadow, self,
+                               tuple(self._caller_stmts)))
 
     def _extra_facts(self, cond: ast.expr, polarity: bool, st: State, line: int) -> tuple[Fact, ...]:
         env = st.common_env()
@@ -1228,6 +1231,7 @@ class Flow:
             self.alldefs.setdefault(ren[p_], []).append(v)
         self._collect_alldefs(body)  # the helper's (renamed) locals are locals of the analysed function now
         self._inline_stack.append(callee.key)
+        self._caller_stmts.append(self._stmt)
         self._ret_stack.append([])
         if len(self._tail_stack) < len(self._ret_stack):
             self._tail_stack.append(False)  # not entered from a `return helper(..)`
@@ -1245,6 +1249,7 @@ class Flow:
             if pushed_tail:
                 self._tail_stack.pop()
             self._inline_stack.pop()
+            self._caller_stmts.pop()
             self._loops = saved_loops
         self.inlined.append(callee.key)
         # states that leave the helper: falling off its end (returns None) or an explicit return
